@@ -432,15 +432,15 @@ func TestC16_ECIES(t *testing.T) {
 	ev := evFor("C16")
 	ev.Rule(c16Rule)
 	ev.Assume("ECIES and IBE draw their nonces from crypto/rand (no injection point): the properties hold for every nonce, a replay reproduces the failure with another nonce; anon.Decrypt is given copies because it overwrites the MAC bytes of its input")
-	rcheck(t, 500, 15000, func(t *rapid.T) { c16ECIES(t, ev) })
+	rcheck(t, 500, 75000, func(t *rapid.T) { c16ECIES(t, ev) })
 }
 
 func TestC16_IBE(t *testing.T) {
 	ev := evFor("C16")
-	rcheck(t, 250, 6000, func(t *rapid.T) { c16IBE(t, ev) })
+	rcheck(t, 250, 30000, func(t *rapid.T) { c16IBE(t, ev) })
 }
 
 func TestC16_Anon(t *testing.T) {
 	ev := evFor("C16")
-	rcheck(t, 500, 15000, func(t *rapid.T) { c16Anon(t, ev) })
+	rcheck(t, 500, 75000, func(t *rapid.T) { c16Anon(t, ev) })
 }
